@@ -9,6 +9,7 @@ META = {
             '(C23_dist_trylock_fail_no_trace); no lost wake-up on any slot; no sleep-deadlock; completion stays reachable from every reachable state (C23_dist_no_deadlock: ordered acquisition, two spinning writers would both own slot 0); '
             'finished balanced scripts leave every word 0; termination under every fair schedule is not proved (C23_fair_progress_partial = the variant).  '
             'Tied to the code by lockstep runs of generated scripts and schedules on the real template instances (hooks in rw_lock_impl.h; distributed_rw_lock_impl.h has no atomic access of its own).',
+    'search': 'deterministic hand-over probe family (reader fetch_add while the writer bit is set, hand-over, reader back-out, third-thread probe; phase lengths swept) + weighted generator; when the lockstep trace differs from the model a search ladder re-runs the disagreeing programs and their neighbours (sections, permutations, try_lock / try_lock_shared / lock_shared / lock probes by a further thread) under thousands of decision lists and evaluates the property on the implementation alone (occupancy conflict, deadlock of a balanced script, word != 0 at quiescence); hits are confirmed by the Coq judge and reported as concrete VIOLATIONs; unknown hook sites are tolerated by the parser',
     'note': 'Trusted: Coq kernel; futex semantics; harness/vsched.h; SC interleaving; Linux CompletionEventImpl. No axioms.',
 }
 
